@@ -164,6 +164,13 @@ func (fr *Frame) applyContract(cx *callCtx, con *Contract) []Term {
 	na := vc.fresh("alloc", "Int")
 	vc.assume(fmt.Sprintf("(>= %s %s)", na, cx.st.alloc))
 	cx.st.alloc = na
+	if con.ReadsClock && !(e.topFrame != nil && e.topFrame.con != nil && e.topFrame.con.FrozenClock) {
+		// the callee reads the injected clock: time may have advanced
+		c := e.comp("$now", "Int")
+		t := vc.fresh("now", "Int")
+		vc.assumeIf(cx.st.pc, fmt.Sprintf("(>= %s %s)", t, e.get(cx.st, c)))
+		cx.st.heap[c] = t
+	}
 	rs := cx.freshResults("r." + lastSeg(cx.name))
 	env.results = rs
 	env.st = cx.st
